@@ -1,6 +1,8 @@
 package c12
 
 import (
+	gogoproto "github.com/gogo/protobuf/proto"
+	gogotypes "github.com/gogo/protobuf/types"
 	golangproto "github.com/golang/protobuf/proto" //nolint
 )
 
@@ -39,4 +41,32 @@ func init() {
 	golangproto.RegisterExtension(ELegacyStr)
 	golangproto.RegisterExtension(ELegacyBin)
 	golangproto.RegisterExtension(ELegacyBool)
+}
+
+// GogoSetMsg is a hand-written gogo-registered message with message_set_wire_format semantics: its extension
+// numbers may legally go up to 2147483646, beyond the ordinary field-number limit.
+type GogoSetMsg struct {
+	XXX_NoUnkeyedLiteral             struct{} `json:"-"`
+	gogoproto.XXX_InternalExtensions `protobuf_messageset:"1" json:"-"`
+	XXX_unrecognized                 []byte `json:"-"`
+	XXX_sizecache                    int32  `json:"-"`
+}
+
+func (m *GogoSetMsg) Reset()         { *m = GogoSetMsg{} }
+func (m *GogoSetMsg) String() string { return "verif.GogoSetMsg" }
+func (*GogoSetMsg) ProtoMessage()    {}
+
+var extRangeGogoSetMsg = []gogoproto.ExtensionRange{{Start: 4, End: 2147483646}}
+
+func (*GogoSetMsg) ExtensionRangeArray() []gogoproto.ExtensionRange { return extRangeGogoSetMsg }
+
+var (
+	EGogoSetSmall = &gogoproto.ExtensionDesc{ExtendedType: (*GogoSetMsg)(nil), ExtensionType: (*gogotypes.Timestamp)(nil), Field: 1000, Name: "verif.gogoset_small", Tag: "bytes,1000,opt,name=gogoset_small", Filename: "verif_gogoset.proto"}
+	EGogoSetLarge = &gogoproto.ExtensionDesc{ExtendedType: (*GogoSetMsg)(nil), ExtensionType: (*gogotypes.Timestamp)(nil), Field: 1 << 30, Name: "verif.gogoset_large", Tag: "bytes,1073741824,opt,name=gogoset_large", Filename: "verif_gogoset.proto"}
+)
+
+func init() {
+	gogoproto.RegisterType((*GogoSetMsg)(nil), "verif.GogoSetMsg")
+	gogoproto.RegisterExtension(EGogoSetSmall)
+	gogoproto.RegisterExtension(EGogoSetLarge)
 }
